@@ -162,7 +162,8 @@ def run(ctx, R, tier):
                 R.bad('B.C10.err-stop', 'gate', 'unrecognised-shape: encountered_error() not branched on')
             else:
                 tb = be[0]
-                reach = pb.reachable([tb])
+                from ..rules import feasible_after
+                reach = feasible_after(pb, tb)
                 ms = [x for x in reach if (callee_path(pb.blocks[x]['term']) or '').endswith('::mark_as_stopped')]
                 mir = [x for x in c03.mirror_calls(F, pb) if x in reach]
                 fills = [x for x in reach if (callee_path(pb.blocks[x]['term']) or '').endswith('core::slice::<impl [T]>::fill')]
